@@ -16,13 +16,15 @@ def _sizes(report, quick, thorough):
 
 def check_C02(report):
     n, length = _sizes(report, (240, 12), (4000, 25))
-    seq.run_histories(report, 'C02', n, length, ['C02'])
+    seq.model_check(report, 3, 5, ['Refines', 'ViewsEqualMap', 'ListEqualsMap', 'SnapshotsAreOld'], ['Act_MaintenanceKeepsMap'])
+    seq.run_histories(report, 'C02', n, length, ['C02'], sim=(80 if report.tier == 'quick' else 1200, 12))
     report.assumptions += ASSUME
 
 
 def check_C03(report):
     n, length = _sizes(report, (240, 12), (4000, 25))
-    traces = seq.run_histories(report, 'C03', n, length, ['C03'])
+    seq.model_check(report, 3, 5, ['Inv_IndexOK', 'Inv_Dedup'], [])
+    traces = seq.run_histories(report, 'C03', n, length, ['C03'], sim=(80 if report.tier == 'quick' else 1200, 12))
     bad = [(t['tid'], i) for t in traces for i, line in enumerate(t['lines']) if line['recipe_bad']]
     for tid, i in bad[:5]:
         trace = traces[tid - 1]
@@ -36,25 +38,29 @@ def check_C03(report):
 
 def check_C13(report):
     n, length = _sizes(report, (240, 14), (4000, 25))
-    seq.run_histories(report, 'C13', n, length, ['C13'])
+    seq.model_check(report, 3, 5, ['Inv_PackNumbering'], ['Act_AppendOnly', 'Act_OnlyLastPackGrows'])
+    seq.run_histories(report, 'C13', n, length, ['C13'], sim=(80 if report.tier == 'quick' else 1200, 12))
     report.assumptions += ASSUME
 
 
 def check_C09_seq(report):
     n, length = _sizes(report, (240, 12), (3000, 25))
-    seq.run_histories(report, 'C09', n, length, ['C09'])
+    seq.model_check(report, 3, 5, ['Inv_Dedup', 'Inv_IndexOK'], ['Act_NoHoles'])
+    seq.run_histories(report, 'C09', n, length, ['C09'], sim=(80 if report.tier == 'quick' else 1200, 12))
     report.assumptions += ASSUME
 
 
 def check_C10_seq(report):
     n, length = _sizes(report, (240, 12), (3000, 25))
-    seq.run_histories(report, 'C10', n, length, ['C10'])
+    seq.model_check(report, 3, 5, ['Refines', 'Inv_IndexOK'], ['Act_MaintenanceKeepsMap'])
+    seq.run_histories(report, 'C10', n, length, ['C10'], sim=(40 if report.tier == 'quick' else 600, 12))
     report.assumptions += ASSUME
 
 
 def check_C11_seq(report):
     n, length = _sizes(report, (240, 12), (3000, 25))
-    seq.run_histories(report, 'C11', n, length, ['C11'])
+    seq.model_check(report, 3, 5, ['Refines'], ['Act_DeleteExact', 'Act_RepackCompact'])
+    seq.run_histories(report, 'C11', n, length, ['C11'], sim=(40 if report.tier == 'quick' else 600, 12))
     report.assumptions += ASSUME
 
 
